@@ -432,7 +432,7 @@ static void mon_c12(World& w) {
         auto sender_busy_until = [&](int64_t due, int64_t start) { for (auto& wl : w.net->wlog) if (wl.conn == int(c) && wl.t_start <= due && wl.t >= start && wl.t_start < start) return true; return false; };
         for (auto& pg : pings) { int64_t t = pg.first; if (t - prev > Kns && !sender_busy_until(prev + Kns, t)) { w.vio("C12:ping-late:" + sn, "PINGREQ " + std::to_string((t - prev) / 1e9) + " s after the previous one / the CONNACK with keep-alive " + std::to_string(K)); return; } prev = pg.second; }
         // the connection stayed up longer than K after the last ping without a new one (only when nothing else disturbed it)
-        bool disturbed = conn.dead || conn.broker_closed;
+        bool disturbed = conn.dead || conn.broker_closed || w.hung_streams.count(st->id);   // a stalled write blocks the PINGREQ behind it: transport latency, not the client's doing
         if (!disturbed && t_end - prev > Kns && !st->write_parked) { w.vio("C12:ping-missing:" + sn, "no PINGREQ within " + std::to_string(K) + " s (connection idle for " + std::to_string((t_end - prev) / 1e9) + " s)"); return; }
     }
     // silence abandon: exactly 1.5 K after the last byte / the start of the read
